@@ -14,9 +14,6 @@ def contTable (b : Basis ℚ) (tol : ℚ) : Val :=
 
 def contTables (o : Obj ℚ) (tol : ℚ) : Val := .list (o.bases.toList.map (fun b => contTable b tol))
 
-def encRet (r : Ret × Obj ℚ) (tol : ℚ) : Val :=
-  .list [.str r.1.name, encodeObj r.2, contTables r.2 tol]
-
 def optInt (v : Val) : Option (Option Int) :=
   match v with
   | .str "none" => some none
